@@ -359,7 +359,8 @@ class VQESolver:
         if isinstance(operator, str):
             if n_active_mos is None:
                 if self.molecule:
-                    n_active_mos = self.molecule.n_active_mos
+                    # n_active_mos is a per-spin list for UHF molecules: the register holds n_active_sos // 2 orbitals per spin
+                    n_active_mos = self.molecule.n_active_sos // 2
                 else:
                     raise KeyError("Must supply n_active_mos when a QubitHamiltonian has initialized VQESolver"
                                    " and requesting the expectation of 'N', 'Sz', or 'S^2'")
